@@ -329,8 +329,8 @@ def leaf_duration(op, T):
 
 class RealEvaluator:
     """relation equations over the link fields of the real objects; never calls get_start_time / start_time.
-    Composite duration uses the library's own definition (first-level starts .. ends of the graph leaves): whether that
-    definition is right is property C04's business."""
+    Composite duration = earliest start to latest end over EVERY node the block lists (the statement's definition;
+    whether the library's `duration` agrees is property C04's business and shows up here in the 'reported' clause)."""
 
     def __init__(self, table):
         self.T = table
@@ -341,11 +341,11 @@ class RealEvaluator:
         if k in self._d:
             return self._d[k]
         if is_composite(op):
-            depth1, leaves, _ = composite_nodes(op)
+            nodes = composite_nodes(op)[2]
             v = 0.0
-            if depth1:
-                rel = min(self.start(n.operation) for n in depth1)
-                for n in leaves:
+            if nodes:
+                rel = min(self.start(n.operation) for n in nodes)
+                for n in nodes:
                     delta = self.end(n.operation) - rel
                     if delta > v:
                         v = delta
@@ -487,8 +487,7 @@ def a_has_rel(x):
 
 
 class AbsEvaluator:
-    """relation equations over the abstract circuit.  Composite duration: the library's definition with RELATION leaves
-    (children no other child refers to) and the first-level children."""
+    """relation equations over the abstract circuit.  Composite duration: earliest start to latest end over all children."""
 
     def __init__(self):
         self._s, self._d = {}, {}
@@ -499,10 +498,9 @@ class AbsEvaluator:
             return self._d[k]
         if x.comp:
             v = 0.0
-            d1 = [c for c in x.kids if c.d1]
-            if d1:
-                rel = min(self.start(c) for c in d1)
-                for c in a_leaves(x, self):
+            if x.kids:
+                rel = min(self.start(c) for c in x.kids)
+                for c in x.kids:
                     delta = self.end(c) - rel
                     if delta > v:
                         v = delta
@@ -615,9 +613,13 @@ def a_unroll(c, blocks):
         ev = AbsEvaluator()
         ends = [ev.end(k) for k in content]
         lv = a_leaves(c, ev)
-        info = {"node": c, "n": n, "src": c.src, "T": ev.dur(c), "size": len(content),
+        first = min([ev.start(k) for k in content if k.d1], default=0.0)
+        info = {"node": c, "n": n, "src": c.src, "size": len(content),
+                # T of ONE copy: from the start of its first-level operations (where a copy "begins") to its latest end
+                "T": (max(ends) - first) if content else 0.0,
+                "span": ev.dur(c),     # earliest start .. latest end (differs from T iff something starts before the first-level operations)
                 "last_is_leaf": bool(content) and max(ends) <= max(ev.end(k) for k in lv),
-                "first_start": min([ev.start(k) for k in content if k.d1], default=0.0)}
+                "first_start": first}
         blocks.append(info)
     for _ in range(1, n):
         ev = AbsEvaluator()
@@ -727,7 +729,7 @@ class Stats:
         self.skipped = {}
         self.hashes = set()
         self.samples = []
-        self.probe = {"stale_before_clear": 0, "stale_checked": 0, "external_refs": 0, "blocks": 0, "blocks_nT": 0,
+        self.probe = {"stale_before_clear": 0, "stale_checked": 0, "external_refs": 0, "blocks": 0, "blocks_nT": 0, "blocks_early_start": 0,
                       "interleaved_listings": 0, "handdown_relinks": 0, "max_ops": 0}
 
     def fail(self, key, clause, function, witness, observed, required):
@@ -1062,6 +1064,8 @@ def check_program(program, stats, verbose=False):
                     continue
                 stats.n["nT"] += 1
                 stats.probe["blocks_nT"] += 1
+                if rnd(b["span"]) != rnd(b["T"]):
+                    stats.probe["blocks_early_start"] += 1
                 first = min(rev.start(n.operation) for n in d1)
                 last = max(rev.end(n.operation) for n in nodes)
                 if rnd(last - first) != rnd(b["n"] * b["T"]):
@@ -1491,7 +1495,10 @@ def main(argv=None):
     res.probes = [
         {"assumption": f"memoised start times read right after unrolling WITHOUT clearing the memos differ from the fresh ones in {pr['stale_before_clear']} of {pr['stale_checked']} "
                        "sampled circuits (stale memos are C03's business; every clause here reads after common.clear_caches())", "ok": True},
-        {"assumption": "composite durations (needed where an operation refers to a sub-circuit) use the library's definition in both evaluators (C04 is judged elsewhere)", "ok": True},
+        {"assumption": "composite durations (needed where an operation refers to a sub-circuit) are, in both own evaluators, the span earliest start .. latest end over every node "
+                       "the block lists (the statement's definition; the library's `duration` is compared in the 'reported' clause)", "ok": True},
+        {"assumption": f"n*T is judged with T = start of the copy's first-level operations .. its latest end (a copy 'begins' with its first-level operations); in "
+                       f"{pr['blocks_early_start']} of {pr['blocks_nT']} qualifying blocks something starts earlier than that (JOINED_END with a longer duration), so the span is larger than T", "ok": True},
         {"assumption": f"reading circuit.operations re-linked relation-less first-level operations in {pr['handdown_relinks']} programs; the oracle models that hand-down", "ok": True},
         {"assumption": f"the n-fold-concatenation claim is NOT made for arbitrary programs: {pr['interleaved_listings']} generated programs have another (breadth-first interleaved) listing", "ok": True},
         {"assumption": f"largest unrolled circuit: {pr['max_ops']} operations", "ok": pr["max_ops"] > 0},
